@@ -179,7 +179,7 @@ def run(rep: Report, prog: Program, tier: str) -> None:
     sub = Report("C17", tier, 0)
     saved = C17.MODULES
     try:
-        C17.MODULES = ["rtcrtpreceiver", "rtcrtpsender", "rtp"]
+        C17.MODULES = ["rtcrtpreceiver", "rtcrtpsender", "rtp", "jitterbuffer"]
         try:
             C17.run(sub, prog, tier)
         except AE:
@@ -204,3 +204,52 @@ def run(rep: Report, prog: Program, tier: str) -> None:
                  "the NACK the receiver sends denotes, after parsing at the sender, exactly the lost sequence numbers; RTX wrapping is invertible (rules C07-NACK, C07-RTP)", 30)
     import_rules(rep, prog, tier, PROP, "C11-JB", "C10", ["C10-FRAMES", "C10-OVERFLOW"],
                  "the jitter buffer hands over whole frames in sending order, tails only right after a discard (rules C10-FRAMES, C10-OVERFLOW)", 100)
+
+    # ---------------- C11-SEQALLOC: every RTP / RTX sequence number handed out is followed by advancing its counter (modulo 2^16)
+    rep.rule("C11-SEQALLOC", "sequence-number counters of the sender are advanced after each use", min_instances=2)
+    n_alloc = 0
+    for fi in prog.cls(S).methods.values():
+        parents: dict = {}
+        for p_ in ast.walk(fi.node):
+            for ch in ast.iter_child_nodes(p_):
+                parents[id(ch)] = p_
+        for n in walk_no_nested(fi.node):
+            if not (isinstance(n, ast.keyword) and n.arg == "sequence_number"):
+                continue
+            src = unparse(n.value)
+            if not (src == "sequence_number" or src.endswith("_sequence_number")) or src == "packet.sequence_number":
+                continue
+            # counters only: a value that is (re)assigned from uint16_add(itself, 1) somewhere in this function
+            incs = [a for a in walk_no_nested(fi.node) if isinstance(a, ast.Assign) and unparse(a.targets[0]) == src and isinstance(a.value, ast.Call)
+                    and unparse(a.value.func) == "uint16_add" and len(a.value.args) == 2 and unparse(a.value.args[0]) == src and prog.try_const(a.value.args[1], fi.module) == 1]
+            plain = [a for a in walk_no_nested(fi.node) if isinstance(a, (ast.Assign, ast.AugAssign)) and unparse(a.targets[0] if isinstance(a, ast.Assign) else a.target) == src]
+            if not plain and not incs and src == "sequence_number" and src in [p.arg for p in fi.pos_params]:
+                continue  # a parameter that is merely passed on
+            n_alloc += 1
+            cur = n
+            while not isinstance(cur, ast.stmt):
+                cur = parents[id(cur)]
+            # the increment must come after the use inside the same loop body / block nest (no path skips it): accept an increment
+            # statement that follows the using statement in the same statement list or in an enclosing list of the same loop
+            ok = False
+            node = cur
+            while id(node) in parents and not ok:
+                par = parents[id(node)]
+                for name in ("body", "orelse", "finalbody"):
+                    lst = getattr(par, name, None)
+                    if isinstance(lst, list) and any(x is node for x in lst):
+                        idx = next(i for i, x in enumerate(lst) if x is node)
+                        if any(any(a is y for y in ast.walk(later)) for later in lst[idx + 1:] for a in incs if isinstance(later, ast.stmt) and not isinstance(later, (ast.If, ast.Try))) or \
+                           any(a is later for later in lst[idx + 1:] for a in incs):
+                            ok = True
+                if isinstance(par, (ast.FunctionDef, ast.AsyncFunctionDef, ast.For, ast.While)):
+                    break
+                node = par
+            what = f"{fi.qualname}: sequence_number={src} @ line {n.value.lineno}"
+            if ok:
+                rep.ok("C11-SEQALLOC", what, sample=f"followed by {src} = uint16_add({src}, 1)")
+            else:
+                rep.fail(mk_finding(prog, PROP, "C11-SEQALLOC", fi, cur, f"`{src}` is used as the sequence number of an outgoing packet but is not advanced afterwards: every packet carries the same "
+                                    f"number, and the receiver's SRTP replay protection drops all but the first (retransmissions are never recovered)", construct=f"{src} not advanced"))
+    if n_alloc < 2:
+        raise AnalysisError("sequence number allocation sites of the sender not found")
